@@ -202,6 +202,13 @@ class SyncBBComputation(VariableComputation):
         """
         # Only done by the first variable in the chain of variables
         if self.previous_var is None:
+            if self.next_var is None:
+                # A single variable: there is no other computation to send the
+                # path to, and no binary constraint; any value is optimal.
+                self.value_selection(self.variable.domain[0], 0)
+                self.new_cycle()
+                self.finished()
+                return
             path = [(self.variable.name, self.variable.domain[0], 0)]
             ub = INFINITY if self.mode == "min" else -INFINITY
             self.logger.debug(
